@@ -37,6 +37,9 @@ pub enum Case {
     Legacy { text: String },
     /// JSON text to SwiftMessage<T>
     Json { mt: String, text: String },
+    /// the public helper functions of `fields::swift_utils` / `fields::field_utils` / `utils` /
+    /// `swift_error_codes` on one hostile string
+    Helper { input: String },
     /// a ParseError value built through its public fields (they are all public and the type is
     /// deserialisable) rendered against an original text
     ErrorRender { variant: String, position: u64, original: String },
@@ -234,6 +237,67 @@ pub fn judge(cfg: &Config, case: &Case, l: &mut Local) {
                 true,
                 hash_bytes2("hdr", text) ^ (*which as u64),
             );
+        }
+        Case::Helper { input } => {
+            use swift_mt_message::fields::field_utils as fu;
+            use swift_mt_message::fields::swift_utils as su;
+            let i = input.as_str();
+            g!(cfg, l, "swift_utils::parse_exact_length", i, case, su::parse_exact_length(i, 6, "f"));
+            g!(cfg, l, "swift_utils::parse_max_length", i, case, su::parse_max_length(i, 35, "f"));
+            g!(cfg, l, "swift_utils::parse_length_range", i, case, su::parse_length_range(i, 1, 16, "f"));
+            g!(cfg, l, "swift_utils::parse_alphanumeric", i, case, su::parse_alphanumeric(i, "f"));
+            g!(cfg, l, "swift_utils::parse_uppercase", i, case, su::parse_uppercase(i, "f"));
+            g!(cfg, l, "swift_utils::parse_numeric", i, case, su::parse_numeric(i, "f"));
+            g!(cfg, l, "swift_utils::parse_swift_digits", i, case, su::parse_swift_digits(i, "f"));
+            g!(cfg, l, "swift_utils::parse_swift_chars", i, case, su::parse_swift_chars(i, "f"));
+            g!(cfg, l, "swift_utils::parse_bic", i, case, su::parse_bic(i));
+            g!(cfg, l, "swift_utils::parse_account", i, case, su::parse_account(i));
+            g!(cfg, l, "swift_utils::get_currency_decimals", i, case, su::get_currency_decimals(i));
+            g!(cfg, l, "swift_utils::validate_non_commodity_currency", i, case, su::validate_non_commodity_currency(i));
+            g!(cfg, l, "swift_utils::parse_currency", i, case, su::parse_currency(i));
+            g!(cfg, l, "swift_utils::parse_currency_non_commodity", i, case, su::parse_currency_non_commodity(i));
+            g!(cfg, l, "swift_utils::parse_amount", i, case, su::parse_amount(i));
+            for ccy in ["EUR", "JPY", "KWD", "CLF", i] {
+                g!(cfg, l, "swift_utils::parse_amount_with_currency", i, case, su::parse_amount_with_currency(i, ccy));
+                if let Some(Ok(a)) = g!(cfg, l, "swift_utils::parse_amount", i, case, su::parse_amount(i)) {
+                    g!(cfg, l, "swift_utils::validate_amount_decimals", i, case, su::validate_amount_decimals(a, ccy));
+                    g!(cfg, l, "swift_utils::format_swift_amount_for_currency", i, case, su::format_swift_amount_for_currency(a, ccy));
+                }
+            }
+            g!(cfg, l, "swift_utils::parse_date_yymmdd", i, case, su::parse_date_yymmdd(i));
+            g!(cfg, l, "swift_utils::parse_date_yyyymmdd", i, case, su::parse_date_yyyymmdd(i));
+            g!(cfg, l, "swift_utils::parse_time_hhmm", i, case, su::parse_time_hhmm(i));
+            g!(cfg, l, "swift_utils::parse_datetime_yymmddhhmm", i, case, su::parse_datetime_yymmddhhmm(i));
+            g!(cfg, l, "swift_utils::parse_reference", i, case, su::parse_reference(i));
+            g!(cfg, l, "swift_utils::split_at_first", i, case, su::split_at_first(i, '/'));
+            g!(cfg, l, "swift_utils::split_at_newline", i, case, su::split_at_newline(i));
+            g!(cfg, l, "swift_utils::normalize_text", i, case, su::normalize_text(i));
+            g!(cfg, l, "swift_utils::validate_iban", i, case, su::validate_iban(i));
+            g!(cfg, l, "field_utils::parse_payment_method", i, case, fu::parse_payment_method(i).map(|x| x.as_str()));
+            g!(cfg, l, "field_utils::parse_field_tag", i, case, fu::parse_field_tag(i));
+            g!(cfg, l, "field_utils::is_numbered_line", i, case, fu::is_numbered_line(i));
+            g!(cfg, l, "field_utils::extract_field_number", i, case, fu::extract_field_number(i));
+            g!(cfg, l, "field_utils::parse_party_identifier", i, case, fu::parse_party_identifier(i));
+            g!(cfg, l, "field_utils::extract_field_option", i, case, fu::extract_field_option(i));
+            g!(cfg, l, "field_utils::parse_field_with_suffix", i, case, fu::parse_field_with_suffix(i));
+            g!(cfg, l, "field_utils::parse_multiline_text", i, case, fu::parse_multiline_text(i, 4, 35));
+            let lines: Vec<&str> = i.split('\n').collect();
+            g!(cfg, l, "field_utils::parse_numbered_lines", i, case, fu::parse_numbered_lines(&lines));
+            g!(cfg, l, "field_utils::validate_multiline_text", i, case, fu::validate_multiline_text(&lines, 4, 35, "f"));
+            for start in [0usize, 1, 2, lines.len(), lines.len() + 1] {
+                g!(cfg, l, "field_utils::parse_name_and_address", i, case, fu::parse_name_and_address(&lines, start, "f"));
+            }
+            g!(cfg, l, "field_utils::validate_field_option", i, case, fu::validate_field_option(i, i.chars().next(), &['A', 'K']));
+            if let Some(c) = i.chars().next() {
+                g!(cfg, l, "field_utils::parse_debit_credit_mark", i, case, fu::parse_debit_credit_mark(c));
+            }
+            g!(cfg, l, "utils::get_field_tag_with_variant", i, case, swift_mt_message::utils::get_field_tag_with_variant(i, Some(i)));
+            g!(cfg, l, "utils::get_field_tag_for_mt", i, case, swift_mt_message::utils::get_field_tag_for_mt(i, i));
+            g!(cfg, l, "utils::is_numbered_field", i, case, swift_mt_message::utils::is_numbered_field(i));
+            g!(cfg, l, "extract_base_tag", i, case, extract_base_tag(i).to_string());
+            g!(cfg, l, "normalize_field_tag", i, case, normalize_field_tag(i).to_string());
+            g!(cfg, l, "get_sequence_config", i, case, { let _ = get_sequence_config(i); });
+            l.eval("helpers", "called", true, hash_str(i));
         }
         Case::ErrorRender { variant, position, original } => {
             let p = *position as usize;
@@ -635,6 +699,33 @@ pub fn run(cfg: &Config) -> i32 {
                     cases.push(("json/leaf-systematic".into(), Case::Json { mt: mt.clone(), text: v2.to_string() }));
                 }
             }
+        }
+    }
+    // the public helper functions on hostile strings (lengths in bytes that match a fixed-width format while
+    // the characters do not, separators at the ends, empty, very long)
+    {
+        let mut hs: Vec<String> = [
+            "", " ", "A", "12", "1234", "250615", "2506151230", "20250615", "EUR", "XAU", "EUR100,50", "100,50", ",", ",5", "1,2,3", "1e5", "-1", "+930",
+            "/ACC", "/", "//", "//FW123", "/C/ACC", "/CC/ACC", "1/NAME", "9/X", "0/", "1/", "50K", "50", "5", ":50K:", "DEUTDEFF", "DEUTDEFFXXX", "deutdeff",
+            "GB82WEST12345698765432", "GB82 WEST 1234 5698 7654 32", "XX00", "A\nB", "\n", "A\n\nB", "L1\nL2\nL3\nL4\nL5", "1/A\n2/B\n3/C", "1/A\n3/C", "\r\n",
+            "é", "ééé", "ab٣٤", "٣٤٣٤٣٤", "٣٤", "２５０６１５", "25061é", "1٣30", "12٣٤56", "😀", "😀😀", "EU😀", "D😀UTDEFF", "DEUTD😀F", "DEUTDEFF😀", "1٣,50", "/é", "é/1", "١/NAME",
+        ]
+        .iter()
+        .map(|x| x.to_string())
+        .collect();
+        hs.push("9".repeat(400));
+        hs.push("A".repeat(100_000));
+        hs.push("é".repeat(3));
+        hs.push(format!("{}é", "A".repeat(34)));
+        hs.push(format!("é{}", "A".repeat(34)));
+        for n in [4usize, 6, 8, 10, 11, 16, 35] {
+            // n bytes made of 2-byte characters, and n-1 ASCII + the first byte position of a multi-byte one
+            hs.push("٣".repeat(n / 2));
+            hs.push(format!("{}é", "1".repeat(n.saturating_sub(1))));
+            hs.push(format!("{}é", "1".repeat(n.saturating_sub(2))));
+        }
+        for h in hs {
+            cases.push(("helper".into(), Case::Helper { input: h }));
         }
     }
     // error values with every kind of position (0, first lines, last line, beyond the end, the packed
